@@ -3,7 +3,8 @@
    a Dec value v is the integer v*10^18 (P18), a BigDec value the integer v*10^36 (P36). *)
 From Coq Require Import ZArith List Bool.
 Import ListNotations.
-From Osmo Require Import Base.DecModel C13.Common C13.Sqrt C13.SqrtProofs C13.SigFig C13.SigFigProofs.
+From Osmo Require Import Base.DecModel C13.Common C13.Sqrt C13.SqrtProofs C13.SigFig C13.SigFigProofs
+  C13.BinSearch C13.BinSearchProofs.
 Open Scope Z_scope.
 
 (* ---------- monotone square roots (integers only, axiom-free) ---------- *)
@@ -80,3 +81,74 @@ Example C13_sigfig_nonvacuous :
   sigfig_round 1235500000000000000 (10 ^ 3) = Ok 1236000000000000000 /\
   sigfig_round 1 (10 ^ 30) = Ok 1 /\ sigfig_round (-5) 100 = Err EOverflow.
 Proof. vm_compute. repeat split. Qed.
+
+(* ---------- tolerance comparison and binary searches (integers only, axiom-free) ---------- *)
+
+(* [meets_tolerance unit ulp_den tol expected actual] (C13/BinSearchProofs.v) is the property's "meets the requested
+   tolerance on the requested side": RoundDown -> actual <= expected; RoundUp -> expected <= actual; and, unless the two
+   are equal, |expected-actual| <= AdditiveTolerance and |expected-actual|/min(|expected|,|actual|) < MultiplicativeTolerance
+   + one ulp of the compared type (the implementation rounds the ratio before comparing).  Nil tolerances impose nothing. *)
+Theorem C13_compare_int_sound : forall tol e a, compare_int tol e a = Ok 0 -> meets_tolerance 1 P18 tol e a.
+Proof. exact compare_int_zero. Qed.
+Print Assumptions C13_compare_int_sound.
+Theorem C13_compare_dec_sound : forall tol e a, compare_dec tol e a = Ok 0 -> meets_tolerance P18 P18 tol e a.
+Proof. exact compare_dec_zero. Qed.
+Print Assumptions C13_compare_dec_sound.
+Theorem C13_compare_bigdec_sound : forall tol e a, compare_bigdec tol e a = Ok 0 -> meets_tolerance P36 P36 tol e a.
+Proof. exact compare_bigdec_zero. Qed.
+Print Assumptions C13_compare_bigdec_sound.
+
+(* for EVERY searched function f (monotone or not, failing or not), every bound pair, target, tolerance and iteration count:
+   a returned input has an image that meets the tolerance on the requested side ... *)
+Theorem C13_binary_search_sound : forall f n lo hi target tol x,
+  binary_search f n lo hi target tol = Ok x ->
+  exists y, f x = Ok y /\ compare_int tol target y = Ok 0 /\ meets_tolerance 1 P18 tol target y.
+Proof. exact binary_search_ok. Qed.
+Print Assumptions C13_binary_search_sound.
+Theorem C13_binary_search_bigdec_sound : forall f n lo hi target tol x,
+  binary_search_bigdec f n lo hi target tol = Ok x ->
+  exists y, f x = Ok y /\ compare_bigdec tol target y = Ok 0 /\ meets_tolerance P36 P36 tol target y.
+Proof. exact binary_search_bigdec_ok. Qed.
+Print Assumptions C13_binary_search_bigdec_sound.
+
+(* ... and lies between the bounds *)
+Theorem C13_binary_search_in_range : forall f n lo hi target tol x, lo <= hi ->
+  binary_search f n lo hi target tol = Ok x -> lo <= x <= hi.
+Proof. exact binary_search_in_range. Qed.
+Print Assumptions C13_binary_search_in_range.
+Theorem C13_binary_search_bigdec_in_range : forall f n lo hi target tol x, lo <= hi ->
+  binary_search_bigdec f n lo hi target tol = Ok x -> lo <= x <= hi.
+Proof. exact binary_search_bigdec_in_range. Qed.
+Print Assumptions C13_binary_search_bigdec_in_range.
+
+(* non-convergence is reported only after exactly maxIterations probes, each of which was answered "outside the tolerance"
+   (f's own failures and range panics are reported as such, not as non-convergence) *)
+Theorem C13_binary_search_nonconvergence : forall f, (forall x, f x <> Err ENoConverge) -> forall n lo hi target tol,
+  binary_search f n lo hi target tol = Err ENoConverge ->
+  length (probes_int f n lo hi target tol) = n /\
+  Forall (fun x => exists y c, f x = Ok y /\ compare_int tol target y = Ok c /\ c <> 0) (probes_int f n lo hi target tol).
+Proof. exact binary_search_noconv. Qed.
+Print Assumptions C13_binary_search_nonconvergence.
+Theorem C13_binary_search_bigdec_nonconvergence : forall f, (forall x, f x <> Err ENoConverge) -> forall n lo hi target tol,
+  binary_search_bigdec f n lo hi target tol = Err ENoConverge ->
+  length (probes_bigdec f n lo hi target tol) = n /\
+  Forall (fun x => exists y c, f x = Ok y /\ compare_bigdec tol target y = Ok c /\ c <> 0) (probes_bigdec f n lo hi target tol).
+Proof. exact binary_search_bigdec_noconv. Qed.
+Print Assumptions C13_binary_search_bigdec_nonconvergence.
+
+Example C13_binary_search_nonvacuous :
+  (* 3x+1 = 1501 on [0,1000], exact hit required: found x = 500 *)
+  binary_search (search_fn_int 0 3 1 0) 50 0 1000 1501 (mkTol (Some 0) None RoundUnconstrained) = Ok 500 /\
+  (* x^3 close to 10^9+5 within 1 percent from below (RoundDown: target >= image) *)
+  binary_search (search_fn_int 1 1 0 0) 50 0 100000 (10 ^ 9 + 5) (mkTol None (Some (10 ^ 16)) RoundDown) = Ok 1000 /\
+  (* no x with 3x+1 = 1500: non-convergence after 50 probes *)
+  binary_search (search_fn_int 0 3 1 0) 50 0 1000 1500 (mkTol (Some 0) None RoundUnconstrained) = Err ENoConverge /\
+  length (probes_int (search_fn_int 0 3 1 0) 50 0 1000 1500 (mkTol (Some 0) None RoundUnconstrained)) = 50%nat /\
+  (* BigDec: 2.5*x = 10 within 10^-9 additive *)
+  binary_search_bigdec (search_fn_bigdec 0 (25 * 10 ^ 35) 0 0) 100 0 (100 * P36) (10 * P36) (mkTol (Some (10 ^ 9)) None RoundUp)
+    = Ok 4000000000087311491370201110839843750 /\
+  (forall x, search_fn_int 0 3 1 0 x <> Err ENoConverge).
+Proof.
+  repeat split; try (vm_compute; reflexivity).
+  intros x. unfold search_fn_int, int_check. cbn [Z.eqb]. destruct (int_fits _); discriminate.
+Qed.
